@@ -167,6 +167,11 @@ func (la *lockAnalysis) analyseFunc(fd *ast.FuncDecl, entryLvl int) {
 				if ix, ok := ast.Unparen(l).(*ast.IndexExpr); ok {
 					lhsBase[ast.Unparen(ix.X)] = true
 				}
+				// vm.table = merged: the target itself is written, not read (a value derived from an
+				// earlier, released read of the table is then a lost update — the stale rule)
+				if se, ok := ast.Unparen(l).(*ast.SelectorExpr); ok {
+					lhsBase[se] = true
+				}
 			}
 		case *ast.IncDecStmt:
 			if ix, ok := ast.Unparen(x.X).(*ast.IndexExpr); ok {
@@ -261,9 +266,43 @@ func (la *lockAnalysis) analyseFunc(fd *ast.FuncDecl, entryLvl int) {
 		}
 		s.cur = map[*types.Var]bool{}
 	}
+	// a local that holds a guarded map itself (m := vm.table — the same map, not a copy): reading it is
+	// reading the table
+	aliasOf := map[types.Object]*types.Var{}
+	ast.Inspect(fd.Body, func(n ast.Node) bool {
+		as, ok := n.(*ast.AssignStmt)
+		if !ok || len(as.Lhs) != len(as.Rhs) {
+			return true
+		}
+		for i, rh := range as.Rhs {
+			f := la.guardedField(rh)
+			if f == nil {
+				continue
+			}
+			if _, isMap := f.Type().Underlying().(*types.Map); !isMap {
+				continue
+			}
+			if id, ok := as.Lhs[i].(*ast.Ident); ok && id.Name != "_" {
+				o := info.Defs[id]
+				if o == nil {
+					o = info.Uses[id]
+				}
+				if o != nil {
+					aliasOf[o] = f
+				}
+			}
+		}
+		return true
+	})
 	h.Visit = func(e ast.Expr, st State) State {
 		s := st.(*lockState)
 		switch x := e.(type) {
+		case *ast.IndexExpr:
+			if id, ok := ast.Unparen(x.X).(*ast.Ident); ok {
+				if f := aliasOf[info.Uses[id]]; f != nil {
+					record(lockAccess{fn: fd, field: f, pos: x.Pos(), lvl: s.lvl})
+				}
+			}
 		case *ast.SelectorExpr:
 			if use := tableArg[x]; use != nil {
 				if f := la.guardedField(x); f != nil {
